@@ -173,6 +173,8 @@ def discharge_rule(rep, prog, tier):
             f = prog.fns.get(fpath)
             if f is not None and f["crate"] in LIBS:
                 what = k.split("|")[2] if k.count("|") >= 2 else "?"
+                if what.startswith("loop:"):
+                    continue
                 if what == "hang":
                     rep.violation("R2", "hang:%s" % pub_fn(fpath), "%s (%s): %s" % (fpath, k.split("|")[1], ob["detail"]), detail={"sources": sorted(ob["sources"])})
                     continue
@@ -191,11 +193,12 @@ def discharge_rule(rep, prog, tier):
     if unsumm:
         from .common import unsummarised_policy
         unsummarised_policy(rep, unsumm, "panic-site discharge runs")
-    return fns, allocs
+    return fns, allocs, merged
 
 
-def termination_rule(rep, prog, fns):
-    rid = rep.rule("R2", "termination: the reachable workspace call graph is acyclic and every loop is driven by an iterator's next() (range / slice / map / vec iterators) that the body does not rewind")
+def termination_rule(rep, prog, fns, merged=None):
+    rid = rep.rule("R2", "termination: the reachable workspace call graph is acyclic; every loop is driven by an iterator's next() (range / slice / map / vec iterators), or was iterated and left on every path of the exhaustive abstract exploration (which unrolls loops and ends only when every path has ended); no path repeats an iteration in an identical state")
+    merged = merged or {}
     # call graph cycles
     graph = {}
     for p in fns:
@@ -241,9 +244,14 @@ def termination_rule(rep, prog, fns):
                         drivers.append(cp)
             rep.instance(rid, "%s|loop@bb%d" % (pub_fn(p), head), sample={"fn": pub_fn(p), "driver": drivers[:1]} if nloops <= 2 else None)
             if not drivers:
-                sp = None
-                t = f["blocks"][head]["term"]
-                rep.violation("R2", "loop:%s" % pub_fn(p), "%s contains a loop that is not driven by an iterator's next(): termination is not evident" % pub_fn(p))
+                ob = merged.get("%s||loop:bb%d|" % (p, head))
+                hang = any(k.startswith(p + "|") and k.split("|")[2:3] == ["hang"] and o["failed"] for k, o in merged.items())
+                if ob and ob["visits"] and not hang:
+                    # every analysis run ended (an unbounded path would have exhausted the interpreter's bounds and left the check
+                    # without a verdict): on all explored paths the loop was left after finitely many iterations
+                    rep.info("%s: loop at bb%d is not iterator-driven; the exploration went round it on %d path(s) and every path left it" % (pub_fn(p), head, ob["visits"]))
+                    continue
+                rep.violation("R2", "loop:%s" % pub_fn(p), "%s contains a loop that is not driven by an iterator's next() and that no analysis run iterated: termination is not evident" % pub_fn(p))
     rep.floor("loops inspected", 3, nloops)
 
 
@@ -265,8 +273,8 @@ def alloc_rule(rep, prog, allocs):
 
 def run(rep, tier, replay=None):
     prog = facts.load("std")
-    fns, allocs = discharge_rule(rep, prog, tier)
-    termination_rule(rep, prog, fns)
+    fns, allocs, merged = discharge_rule(rep, prog, tier)
+    termination_rule(rep, prog, fns, merged)
     alloc_rule(rep, prog, allocs)
     rep.assume("NOT decided: panics inside dependencies (deku, bitvec, alloc OOM), stack depth")
     rep.assume("operations on decoded frames are analysed under the field invariants the decode model establishes (values produced by the abstract decode of every grammar path)")
